@@ -7,6 +7,8 @@ from typing import Dict, List, Optional, Set, Tuple
 from .. import cfg as cfgmod
 from .. import lin
 from ..core import (
+    iteration_around,
+    resolve_local,
     AnalysisError,
     call_name,
     calls_in,
@@ -117,20 +119,19 @@ def r2_full_batches(ctx: Context) -> None:
     ctx.analysed_function(f"{CW}::Model.get_placements")
     g = cfgmod.build(fn)
     want = lin.formula(ast.parse("len(self._request_queues[strategy]) < strategy.batch_size", mode="eval").body)
-    guards = [t for t in g.nodes if t.kind == "test" and lin.equivalent(lin.formula(t.ast), want) and any(isinstance(x, ast.Raise) for x in parent(t.ast).body)]
+    guards = [t for t in g.nodes if t.kind == "test" and lin.equivalent(lin.formula(resolve_local(fn, t.ast)), want) and any(isinstance(x, ast.Raise) for x in parent(t.ast).body)]
     creates = [c for c in calls_in(fn, "create_task_placement")]
     ctx.floor("C15.R2", "placement creation in get_placements", len(creates), 1)
     ok = bool(guards) and g.edge_dominates(guards[0], "F", g.node_of(creates[0]))
     ctx.check(ok, "C15.R2", "Model.get_placements|short queue refused", loc(fn), "len(queue) < batch_size -> raise",
               "a batch smaller than the strategy's batch size can be placed")
-    lp = parent(creates[0])
-    while lp is not None and not isinstance(lp, ast.For):
-        lp = parent(lp)
-    ok = lp is not None and norm(lp.iter) == "self._request_queues[strategy][:strategy.batch_size]"
-    ctx.check(ok, "C15.R2", "Model.get_placements|exactly the first batch_size requests of that strategy's queue", loc(lp) if lp else loc(fn),
+    # the loop (or comprehension) that builds the placements; a local that names the slice is read through
+    lp = iteration_around(creates[0])
+    ok = lp is not None and ast.unparse(resolve_local(fn, lp.iter)) == "self._request_queues[strategy][:strategy.batch_size]"
+    ctx.check(ok, "C15.R2", "Model.get_placements|exactly the first batch_size requests of that strategy's queue", loc(lp.node) if lp else loc(fn),
               "queue[strategy][:batch_size]", f"the batch is drawn from `{norm(lp.iter) if lp else '?'}`")
     bs = [c for c in calls_in(fn, "BatchStrategy")]
-    ok = len(bs) == 1 and lp is not None and not any(x is bs[0] for x in ast.walk(lp)) and \
+    ok = len(bs) == 1 and lp is not None and not any(x is bs[0] for x in ast.walk(lp.node)) and \
         any(k.arg == "execution_strategy" and norm(k.value) == "strategy" for k in bs[0].keywords) or (len(bs) == 1 and bs[0].args and norm(bs[0].args[0]) == "strategy")
     ctx.check(bool(ok), "C15.R2", "Model.get_placements|one BatchStrategy built from the chosen strategy, outside the loop", loc(bs[0]) if bs else loc(fn),
               "shared by the whole batch", "members of one batch do not share a single BatchStrategy of the chosen strategy")
@@ -153,15 +154,20 @@ def r3_placed_once(ctx: Context) -> None:
     model = _cls(ctx, "Model")
     fn = method(model, "get_placements")
     creates = [c for c in calls_in(fn, "create_task_placement")]
-    lp = parent(creates[0])
-    while lp is not None and not isinstance(lp, ast.For):
-        lp = parent(lp)
-    rq = norm(lp.target) if lp is not None else "request"
+    it = iteration_around(creates[0])
+    lp = it.node if it is not None else None
+    rq = norm(it.target) if it is not None else "request"
     apps = [c for c in calls_in(lp, "append")] if lp is not None else []
     rem_list = [norm(c.func.value) for c in apps if norm(c.args[0]) == f"{rq}.task"]
     rm_loops = [l for l in ast.walk(fn) if isinstance(l, ast.For) and rem_list and norm(l.iter) == rem_list[0]]
     ok = bool(rm_loops) and any(call_name(c) == "remove_task" and is_self_attr(c.func) and norm(c.args[0]) == norm(rm_loops[0].target) for c in calls_in(rm_loops[0]))
-    direct = any(call_name(c) == "remove_task" and norm(c.args[0]) == f"{rq}.task" for c in calls_in(fn))
+    if not ok and it is not None:
+        # a second loop over the very same batch (the slice, or the local that names it) that removes `<its variable>.task`
+        same = [l for l in ast.walk(fn) if isinstance(l, ast.For) and l is not lp and ast.unparse(resolve_local(fn, l.iter)) == ast.unparse(resolve_local(fn, it.iter))
+                and isinstance(l.iter, ast.Name) and any(call_name(c) == "remove_task" and is_self_attr(c.func) and c.args and norm(c.args[0]) == f"{norm(l.target)}.task" for c in calls_in(l))]
+        if same:
+            ok, rm_loops = True, same
+    direct = any(call_name(c) == "remove_task" and norm(c.args[0]) == f"{rq}.task" and lp is not None and any(c is x for x in ast.walk(lp)) for c in calls_in(fn))
     ctx.check(ok or direct, "C15.R3", "Model.get_placements|every placed task is removed from the model", loc(fn), "remove_task for each placed task",
               "a placed request stays queued and can be placed again by a later invocation")
     g = cfgmod.build(fn)
